@@ -650,6 +650,12 @@ func (f *faultyStore) Mutate(ms []*storage.Mutation, meta []byte) error {
 		<-f.release
 		atomic.StoreInt32(&f.parked, 0)
 	}
+	if f.plan.KillDuring == k {
+		go func() {
+			time.Sleep(time.Duration(f.plan.KillDelayUs) * time.Microsecond)
+			syscall.Kill(os.Getpid(), syscall.SIGKILL)
+		}()
+	}
 	if f.plan.FailAt == k {
 		return fmt.Errorf("IO error: No space left on device (injected write fault)")
 	}
